@@ -22,7 +22,7 @@ type trace struct {
 	Steps []stepObs    `json:"steps"`
 	Fe    []forEachObs `json:"fe"`
 	SrcOK bool         `json:"srcok"`
-	Post  []any        `json:"post"`
+	Post  postObs      `json:"post"`
 	// not judged by TLC: reported by the orchestrator directly
 	Panic     string `json:"panic"`
 	Truncated bool   `json:"truncated"`
@@ -233,7 +233,7 @@ func TestRandom(t *testing.T) {
 // (hang = true) and ends the process.
 func guarded(out *vio.Out, kind string, e *Expr, rng *rand.Rand) {
 	withWatchdog(out, func() any {
-		return trace{Kind: kind, Expr: e, Depth: depthOf(e), Cc: []call{}, Steps: []stepObs{}, Fe: []forEachObs{}, Post: []any{}, Hang: true}
+		return trace{Kind: kind, Expr: e, Depth: depthOf(e), Cc: []call{}, Steps: []stepObs{}, Fe: []forEachObs{}, Post: postObs{V: item{0}}, Hang: true}
 	}, func() { out.Put(execute(kind, e, rng)) })
 }
 
